@@ -61,7 +61,7 @@ def run(chk: Check) -> int:
         col.add(I.run_case(spec, I.RandomSched(rng)), f"seed{chk.seed}/{k}")
     exh = {}
     plans = [(kind, nt, 4, 3) for kind in I.KINDS for nt in (2, 3)] if chk.quick else \
-        [(kind, nt, T, g) for kind in I.KINDS for nt in (1, 2, 3) for T in (2, 4, 6) for g in (T, T - 1)]
+        [(kind, nt, T, g) for kind in I.KINDS for nt in (1, 2, 3) for T in (2, 4, 5) for g in (T, T - 1)]
     for lk in (["Learner1D"] if chk.quick else ["Learner1D", "SequenceLearner", "AverageLearner", "mock"]):
         for kind, nt, T, g in plans:
             spec = {"kind": kind, "learner": lk, "total": T, "goal": g, "ntasks": nt, "ncores": 1, "retries": 0,
